@@ -8,8 +8,14 @@
 type TextFn = Box<dyn Fn(usize) -> String + Send + Sync>;
 type ApplyFn = Box<dyn Fn(&str, usize) -> String + Send + Sync>;
 
+/// (prefix tokens of the local variant, prefix tokens of the global variant)
+pub type Prefixes = (&'static str, &'static str);
+pub const PLAIN: Prefixes = ("", "\\global");
+
 pub struct Form {
     pub name: &'static str,
+    /// what is written in front of the assignment: TeX §1211 accumulates \global, \long, \outer in any order
+    pub prefixes: Prefixes,
     /// the command is \gdef (tex.web §1218: global unless \globaldefs<0)
     pub gdef: bool,
     /// source text of the assignment of value i, without prefix, self-delimiting
@@ -51,7 +57,10 @@ pub const NV: usize = 20;
 const CATS: [u8; 10] = [11, 7, 8, 3, 4, 6, 13, 1, 2, 10];
 
 fn abs_form(name: &'static str, text: impl Fn(usize) -> String + Send + Sync + 'static, obs: impl Fn(usize) -> String + Send + Sync + 'static) -> Form {
-    Form { name, gdef: false, text: Box::new(text), apply: Box::new(move |_, i| obs(i)) }
+    Form { name, gdef: false, prefixes: PLAIN, text: Box::new(text), apply: Box::new(move |_, i| obs(i)) }
+}
+fn prefixed_def(name: &'static str, prefixes: Prefixes, lhs: &'static str, base: usize) -> Form {
+    Form { name, gdef: false, prefixes, text: Box::new(move |i| format!("\\def{lhs}{{{}}}", base + i)), apply: Box::new(move |_, i| (base + i).to_string()) }
 }
 fn letter(base: u8, i: usize) -> char {
     (base + (i % 26) as u8) as char
@@ -76,7 +85,7 @@ fn active_setup(lhs: &str) -> String {
 fn int_target(name: &'static str, lhs: &'static str, initial: i64, setup: &str, alias: Option<&'static str>) -> Target {
     let mut forms = vec![
         abs_form("set", move |i| format!("{lhs}={} ", i + 1), |i| (i + 1).to_string()),
-        Form { name: "advance", gdef: false, text: Box::new(move |i| format!("\\advance{lhs} by {} ", 100 * (i + 1))), apply: Box::new(|cur, i| (cur.parse::<i64>().unwrap() + 100 * (i as i64 + 1)).to_string()) },
+        Form { name: "advance", gdef: false, prefixes: PLAIN, text: Box::new(move |i| format!("\\advance{lhs} by {} ", 100 * (i + 1))), apply: Box::new(|cur, i| (cur.parse::<i64>().unwrap() + 100 * (i as i64 + 1)).to_string()) },
     ];
     if let Some(a) = alias {
         forms.push(abs_form("set-through-alias", move |i| format!("{a}={} ", 50 + i), |i| (50 + i).to_string()));
@@ -116,7 +125,7 @@ pub fn kinds() -> Vec<Kind> {
         initial: "0.0pt".into(),
         forms: vec![
             abs_form("set", move |i| format!("{lhs}={}pt ", i + 1), |i| format!("{}.0pt", i + 1)),
-            Form { name: "advance", gdef: false, text: Box::new(move |i| format!("\\advance{lhs} by {}pt ", 100 * (i + 1))), apply: Box::new(|cur, i| format!("{}.0pt", pt(cur).0 + 100 * (i as i64 + 1))) },
+            Form { name: "advance", gdef: false, prefixes: PLAIN, text: Box::new(move |i| format!("\\advance{lhs} by {}pt ", 100 * (i + 1))), apply: Box::new(|cur, i| format!("{}.0pt", pt(cur).0 + 100 * (i as i64 + 1))) },
         ],
     };
     v.push(Kind { name: "dimen", class: Class::Variable, setup: String::new(), targets: vec![dimen("dimen1", "\\dimen1"), dimen("dimen2", "\\dimen2")], nvals: NV });
@@ -130,6 +139,7 @@ pub fn kinds() -> Vec<Kind> {
             Form {
                 name: "advance",
                 gdef: false,
+                prefixes: PLAIN,
                 text: Box::new(move |i| format!("\\advance{lhs} by {}pt plus 1pt ", 100 * (i + 1))),
                 apply: Box::new(|cur, i| {
                     let (n, s) = pt(cur);
@@ -183,7 +193,13 @@ pub fn kinds() -> Vec<Kind> {
         initial: format!("<undef {lhs}>"),
         forms: vec![
             abs_form("def", move |i| format!("\\def{lhs}{{{}}}", i + 1), |i| (i + 1).to_string()),
-            Form { name: "gdef", gdef: true, text: Box::new(move |i| format!("\\gdef{lhs}{{{}}}", 50 + i)), apply: Box::new(|_, i| (50 + i).to_string()) },
+            Form { name: "gdef", gdef: true, prefixes: PLAIN, text: Box::new(move |i| format!("\\gdef{lhs}{{{}}}", 50 + i)), apply: Box::new(|_, i| (50 + i).to_string()) },
+            // \def with \long / \outer in every position relative to \global: scopes exactly like [\global]\def
+            prefixed_def("long-def", ("\\long", "\\global\\long"), lhs, 100),
+            prefixed_def("outer-def", ("\\outer", "\\global\\outer"), lhs, 200),
+            prefixed_def("long-then-global-def", ("\\long", "\\long\\global"), lhs, 300),
+            prefixed_def("outer-long-then-global-def", ("\\outer\\long", "\\outer\\long\\global"), lhs, 400),
+            prefixed_def("global-then-long-outer-def", ("\\long\\outer", "\\global\\long\\outer"), lhs, 500),
         ],
     };
     v.push(Kind { name: "macro", class: Class::ControlSequence, setup: String::new(), targets: vec![mac("\\ma", "\\ma"), mac("\\mb", "\\mb")], nvals: NV });
@@ -247,7 +263,7 @@ pub fn kinds() -> Vec<Kind> {
     });
     // ---------------------------------------------------------------- \globaldefs itself
     // three forms (+1, -1, 0: the sign is what matters) so that an alphabet can name them
-    let gd = |name: &'static str, val: i64| Form { name, gdef: false, text: Box::new(move |_| format!("\\globaldefs={val} ")), apply: Box::new(move |_, _| val.to_string()) };
+    let gd = |name: &'static str, val: i64| Form { name, gdef: false, prefixes: PLAIN, text: Box::new(move |_| format!("\\globaldefs={val} ")), apply: Box::new(move |_, _| val.to_string()) };
     v.push(Kind {
         name: "globaldefs",
         class: Class::GlobalDefs,
